@@ -218,6 +218,11 @@ type c06Case struct {
 	// the name the flusher writes before its rename (what a kill between the
 	// two leaves behind)
 	Leftover string `json:"leftover,omitempty"`
+	// Rooted: before the first session a valid sidecar of big.bin with every
+	// chunk marked lies at the OTHER sidecar location (below <out>/<root>/,
+	// where a transfer with a root directory keeps it) and no data file at the
+	// flat location - the leftover of a differently laid-out earlier transfer
+	Rooted bool `json:"stale_sidecar_at_rooted_location,omitempty"`
 	Hold    bool   `json:"hold"`    // hold the sender's verification until the rest was sent (repair race)
 	// Marks: shape of the recorded set of a "partial" first run: "" = prefix
 	// (+ maybe one scattered later chunk) | "nozero" = chunk 0 missing, a run of
@@ -294,6 +299,9 @@ func c06Key(c c06Case, o c06Out) string {
 	if c.Leftover != "" {
 		return fmt.Sprintf("tamper:sidecar-%s+flush-temp-file:data-%s:first-%s", c.Sidecar, c.Data, c.First)
 	}
+	if c.Rooted {
+		return fmt.Sprintf("tamper:sidecar-%s+stale-sidecar-at-the-rooted-location:data-%s:first-%s", c.Sidecar, c.Data, c.First)
+	}
 	return fmt.Sprintf("tamper:sidecar-%s:data-%s:first-%s", c.Sidecar, c.Data, c.First)
 }
 
@@ -330,6 +338,10 @@ func runC06(e *Env) {
 				for _, data := range []string{"kept", "deleted", "shortened"} {
 					add(c06Case{First: first, Sidecar: sc, Data: data})
 				}
+			}
+			// a stale sidecar at the other (rooted) location from before the first session
+			for _, sc := range []string{"kept", "truncated", "garbage", "deleted", "bitflip"} {
+				add(c06Case{First: first, Sidecar: sc, Data: "kept", Rooted: true})
 			}
 			// the flusher's temp file of an interrupted flush lies next to the sidecar
 			for _, sc := range []string{"kept", "truncated", "garbage", "deleted"} {
@@ -391,7 +403,7 @@ func runC06(e *Env) {
 			e.R.Count("tamper_not_applicable")
 			return
 		}
-		e.R.Distinct(fmt.Sprintf("%s%s/%s/%s/src=%s/off%d/hold%v/cs%d/s%d", c.First, c.Marks, c.Sidecar+c.Leftover, c.Data, c.Source, c.DmgOff%int(c.CS), c.Hold || c.HoldEnd || c.HoldChunks, c.CS+uint32(c.ResumeTimeoutMs), c.Streams))
+		e.R.Distinct(fmt.Sprintf("%s%s/%s/%s/src=%s/off%d/hold%v/cs%d/s%d", c.First, c.Marks, c.Sidecar+c.Leftover+fmt.Sprint(c.Rooted), c.Data, c.Source, c.DmgOff%int(c.CS), c.Hold || c.HoldEnd || c.HoldChunks, c.CS+uint32(c.ResumeTimeoutMs), c.Streams))
 		res := o.res
 		mu.Lock()
 		switch {
@@ -500,6 +512,29 @@ func runC06Case(e *Env, lp *vk.ListenerPool, c c06Case) c06Out {
 		}
 	}
 
+	rootedDir := ""
+	if c.Rooted {
+		if m0, _, _, _, err := vk.BuildManifest(cfg, src); err == nil {
+			if r := strings.Trim(m0.Root, "/"); r != "" && r != "." {
+				rootedDir = filepath.Join(outDir, r)
+			}
+			for _, it := range m0.Items {
+				if !strings.HasSuffix(it.RelPath, "big.bin") {
+					continue
+				}
+				fp := transfer.SidecarPath(outDir, m0.Root, transfer.VerifCoreSidecarID(it))
+				_ = os.MkdirAll(filepath.Dir(fp), 0755)
+				if fsc, err := transfer.CreateSidecar(fp, it.ID, it.Size, c.CS); err == nil {
+					for i := uint32(0); i < fsc.TotalChunks; i++ {
+						fsc.MarkComplete(i)
+					}
+					_ = fsc.Flush()
+					out.note = "stale all-marked sidecar planted at " + strings.TrimPrefix(fp, outDir)
+				}
+				transfer.VerifRetireSidecars(filepath.Dir(fp))
+			}
+		}
+	}
 	// ---- first transfer (always run to completion; a partial state is
 	// synthesised below so that the marked set is controlled exactly)
 	cfg1 := cfg
@@ -774,6 +809,10 @@ func runC06Case(e *Env, lp *vk.ListenerPool, c c06Case) c06Out {
 		out.resent = sentFrames(cfg2.SendDeco)[[2]uint64{bigKey, uint64(highest)}] > 0
 	}
 	if res.BothOK() {
+		if c.Rooted && rootedDir != "" {
+			// the planted directory holds nothing but resume metadata
+			_ = os.RemoveAll(rootedDir)
+		}
 		got, err := vk.Digest(outDir)
 		if err != nil {
 			out.setup = err.Error()
